@@ -21,8 +21,11 @@ type sscript struct {
 	Mode      string           `json:"mode"`
 	DefParts  int32            `json:"def_parts"`
 	Overrides map[string]int32 `json:"overrides"`
-	Exps      []exp            `json:"exps"`
-	Calls     []scall          `json:"calls"`
+	// DefParts/Overrides is the configuration meant to be in effect; CfgVariant picks how it is put in place and which
+	// of the maps handed to SetPartitions the harness afterwards edits or shares with another mock (cfgOps)
+	CfgVariant int     `json:"cfg_variant"`
+	Exps       []exp   `json:"exps"`
+	Calls      []scall `json:"calls"`
 	// Concurrent: the first two calls (both SendMessage) are made by two goroutines A and B. The checker of the first
 	// expectation, once entered by A, holds A until B's call has returned or 100 ms have passed (on the unmodified
 	// mock B waits for the lock A holds, so it is always the time-out, and the calls are serialised A, B).
@@ -60,7 +63,7 @@ func runSync1(s sscript) obsSync {
 	cfg.Producer.Return.Successes = true
 	cfg.Producer.Partitioner = plog.constructor()
 	sp := mocks.NewSyncProducer(rep, cfg)
-	setPartitions(sp.TopicConfig, s.DefParts, s.Overrides)
+	applyCfg(sp.TopicConfig, cfgOps(s.DefParts, s.Overrides, s.CfgVariant))
 	entered, gate := make(chan struct{}), make(chan struct{})
 	first := s.Exps
 	if s.Concurrent { // the first expectation gets the gated checker
@@ -191,7 +194,7 @@ func runSync1(s sscript) obsSync {
 }
 
 func genSync(r *rand.Rand) sscript {
-	s := sscript{Mode: "sync", DefParts: int32(1 + r.Intn(40)), Overrides: map[string]int32{}}
+	s := sscript{Mode: "sync", CfgVariant: r.Intn(32), DefParts: int32(1 + r.Intn(40)), Overrides: map[string]int32{}}
 	for i := 0; i < 3; i++ {
 		if r.Intn(3) == 0 {
 			s.Overrides[topicName(i)] = int32(1 + r.Intn(9))
@@ -237,7 +240,7 @@ func genSync(r *rand.Rand) sscript {
 
 // genSyncConcurrent: two goroutines call SendMessage; the first expectation has the gated checker.
 func genSyncConcurrent(r *rand.Rand) sscript {
-	s := sscript{Mode: "sync", Concurrent: true, DefParts: int32(1 + r.Intn(40)), Overrides: map[string]int32{}}
+	s := sscript{Mode: "sync", Concurrent: true, CfgVariant: r.Intn(32), DefParts: int32(1 + r.Intn(40)), Overrides: map[string]int32{}}
 	n := 2 + r.Intn(3)
 	for i := 0; i < n; i++ {
 		m := genMsg(r, int64(i+1))
@@ -400,8 +403,8 @@ func syncCase(s sscript) (string, cf.Sidecar) {
 			calls = append(calls, cf.App("KSend", fmt.Sprint(c.Msgs[0].Topic), coqMsg(c.Msgs[0])))
 		}
 	}
-	term := fmt.Sprintf("{| sc_def := %d; sc_over := %s; sc_exps := %s; sc_calls := %s; sc_rets := %s; sc_close := %s; sc_np := %s; sc_ctor := %s |}",
-		s.DefParts, coqOverrides(s.Overrides), coqExps(s.Exps), cf.List(calls), cf.List(rets), cf.List(o.Close), coqZ3s(o.NP), cf.ZList(o.Ctors))
+	term := fmt.Sprintf("{| sc_tc := %s; sc_exps := %s; sc_calls := %s; sc_rets := %s; sc_close := %s; sc_np := %s; sc_ctor := %s |}",
+		coqCfgOps(cfgOps(s.DefParts, s.Overrides, s.CfgVariant)), coqExps(s.Exps), cf.List(calls), cf.List(rets), cf.List(o.Close), coqZ3s(o.NP), cf.ZList(o.Ctors))
 	mon := monitorSync(s, o)
 	kind := "sync"
 	if s.Concurrent {
